@@ -669,7 +669,7 @@ theorem source_steps_atomic :
         ["recv tg.closed", "close tg.closed", "event tg.stop"] = true) ∧
     ((before "ThreadGroup.Stop" "call tg.mu.Unlock" "call tg.wg.Wait" &&
       before "ThreadGroup.Stop" "call tg.wg.Wait" "event tg.stopped") = true) ∧
-    (beforeFrom "ThreadGroup.Stop" "default" "event tg.stop" "close tg.closed" = true) ∧
+    (precededBy "ThreadGroup.Stop" "close tg.closed" "event tg.stop" = true) ∧
     -- acquire / release are one step each under inflightMu
     (under "Syncer.acquireInflight" "call s.inflightMu.Lock" "call s.inflightMu.Unlock"
         ["index s.inflightSubnet", "event s.sub.acq", "event s.sub.rej"] = true) ∧
